@@ -656,9 +656,9 @@ Proof.
     destruct (L_expr_all pv sv bound u fl g k cond ctx c code_c vc c0 sc l Hm Hf) as (bc0 & lc0 & Hsc0 & Hvc1 & Hvc2).
     pose proof Hsc0 as (_ & Hc0 & _).
     assert (HLb : forall l0, exists bb l2, cshape u l0 blk bb l2 c0 c1)
-      by (intros l0; eapply (L_eblock pv sv bound u fl g (L_expr_all pv sv bound u fl g) (L_stmts_all pv sv bound u fl g)); eassumption).
+      by (intros l0; eapply (L_eblock pv sv bound u fl g (fun fl0 => L_expr_all pv sv bound u fl0 g) (L_stmts_all pv sv bound u fl g)); eassumption).
     assert (HLr : forall l0, exists br l3, cshape u l0 (concat ys ++ map (fun _ : ifbranch => IEnd) brs) br l3 c1 c')
-      by (intros l0; eapply (L_branches pv sv bound u fl g (L_expr_all pv sv bound u fl g) (L_stmts_all pv sv bound u fl g)); eassumption).
+      by (intros l0; eapply (L_branches pv sv bound u fl g (fun fl0 => L_expr_all pv sv bound u fl0 g) (L_stmts_all pv sv bound u fl g)); eassumption).
     destruct (HLb l) as (_ & _ & (_ & Hc01 & _)). destruct (HLr l) as (_ & _ & (_ & Hc1' & _)).
     assert (Hcode : concat ((code_c ++ [IIf vc] ++ blk ++ [IElse]) :: ys) ++ map (fun _ : ifbranch => IEnd) (IfBranch (Some cond) body bsp :: brs)
                     = code_c ++ (IIf vc :: blk ++ IElse :: (concat ys ++ map (fun _ : ifbranch => IEnd) brs) ++ [IEnd])).
@@ -759,7 +759,7 @@ Proof.
     rewrite Hcode in *.
     apply ucovers_cons in Hu as [_ Hu]. apply ucovers_cons in Hu as [Huif Hu]. apply ucovers_app in Hu as [Hub _].
     assert (Hcv : 1 <= count_of u c) by (apply Huif; left; reflexivity).
-    destruct (L_eblock pv sv bound u fl g (L_expr_all pv sv bound u fl g) (L_stmts_all pv sv bound u fl g) k out body ctx (c + 1) blk c' sc scb l Hmb Hfb)
+    destruct (L_eblock pv sv bound u fl g (fun fl0 => L_expr_all pv sv bound u fl0 g) (L_stmts_all pv sv bound u fl g) k out body ctx (c + 1) blk c' sc scb l Hmb Hfb)
       as (_ & _ & (_ & Hc1 & _)).
     change (if_go n e [IfBranch None body bsp]) with (SyltSem.block_value n e body) in Hev.
     assert (Hctxv : ctx_ok l F E c (c + 1)) by (eapply ctx_sub; [exact Hctx | lia | lia]).
@@ -1267,7 +1267,7 @@ Proof.
     rewrite seval_if in Hev.
     apply ucovers_cons in Hu as [Hud Hub].
     assert (Hcc : 1 <= count_of u c) by (apply Hud; left; reflexivity).
-    destruct (L_branches pv sv bound u fl g (L_expr_all pv sv bound u fl g) (L_stmts_all pv sv bound u fl g) branches k c ctx (c + 1) codes c' sc l Hm0 Hfrag)
+    destruct (L_branches pv sv bound u fl g (fun fl0 => L_expr_all pv sv bound u fl0 g) (L_stmts_all pv sv bound u fl g) branches k c ctx (c + 1) codes c' sc l Hm0 Hfrag)
       as (_ & _ & (_ & Hcc' & _)).
     assert (Hctxd : ctx_ok l F E c (c + 1)) by (eapply ctx_sub; [exact Hctx | lia | lia]).
     assert (Hcr : c <= c < c + 1) by lia.
